@@ -245,7 +245,7 @@ func bucket(n int) int {
 
 func replaySchedule(scen string, raw json.RawMessage) []*mc.Violation {
 	var in SchedIn
-	if json.Unmarshal(raw, &in) != nil || len(in.Threads) == 0 {
+	if mc.UnmarshalInput(raw, &in) != nil || len(in.Threads) == 0 {
 		return nil
 	}
 	want := sequential(in.Threads)
